@@ -191,6 +191,7 @@ def run(ctx):
                             bad = 'formats byte offsets %s, expected lanes in order %s' % (seq, exp)
                 done('R-FMT', name, bad, it)
         nconst = check_constants(ctx, cfg, F, H)
+        check_map(ctx, cfg, F, H)
         ctx.floor('named constants checked (%s)' % cfg, nconst, 330)
         ctx.floor('vector/quaternion types with access paths (%s)' % cfg, len(types), FLOOR_TYPES)
         for k, v in sorted(counts.items()):
@@ -249,6 +250,55 @@ def _expected(name, elem, N):
     if isf and name == 'NAN':
         return ['nan'] * N
     return None
+
+
+def check_map(ctx, cfg, F, H):
+    """R-MAP: map(f) on every vector type (generic over the closure) calls f once per lane, in lane order, with exactly that lane, and places the
+    k-th result in lane k"""
+    n = 0
+    for name, it in sorted(F.items.items()):
+        if not it.get('generic') or it.get('trait') or it.get('name') != 'map':
+            continue
+        st = (it.get('self_ty') or '').lstrip('&')
+        body = F.body(it['key'])
+        if body is None:
+            continue
+        base, by_ref = strip_ref(F, body['locals'][1])
+        vi = vec_info(F, base)
+        if vi is None or vi['name'].startswith('BVec'):
+            continue
+        r = H.run(it['key'])
+        n += 1
+        bad = r.abort
+        if not bad:
+            av = ArgView(F, r, 0, body['locals'][1])
+            lanes = value_lanes(F, r.ret, body['locals'][0]) if r.ret is not None else None
+            calls = [(d, deps) for (d, deps, caller, line) in r.opaque if d.rsplit('::', 1)[-1] in ('call', 'call_mut', 'call_once')]
+            if lanes is None or av.lanes is None or len(calls) != vi['dim'] or len(lanes) != vi['dim']:
+                bad = 'map does not call the closure once per lane (%d calls for %d lanes)' % (len(calls), vi['dim'])
+            else:
+                self_atoms = set(av.lanes)
+                tops = []
+                for k in range(vi['dim']):
+                    dk = set(x for x in calls[k][1] if x in self_atoms)
+                    if dk != {av.lanes[k]}:
+                        bad = 'call %d of the closure receives %s, expected lane %d' % (k, sorted(tm.show(x) for x in dk), k)
+                        break
+                    tops.append(lanes[k])
+                if not bad:
+                    ids = [t.args[0] if t.op == 'top' and t.args else None for t in tops]
+                    if any(t.op != 'top' for t in tops) or len(set(t.id for t in tops)) != vi['dim']:
+                        bad = 'the results of the closure calls are not placed one per lane'
+                    else:
+                        # the k-th created result (creation order = call order) sits in lane k
+                        order = sorted(range(vi['dim']), key=lambda j: tops[j].id)
+                        if order != list(range(vi['dim'])):
+                            bad = 'the result of call %d is not placed in lane %d' % (order.index(0) if 0 in order else 0, 0)
+        if bad:
+            ctx.violation('R-MAP', cfg, name, {'file': it['file'], 'line': it['line'], 'problem': bad})
+        else:
+            ctx.holds('R-MAP', cfg, name)
+    ctx.floor('map implementations (%s)' % cfg, n, 34)
 
 
 def check_constants(ctx, cfg, F, H):
